@@ -124,6 +124,19 @@ def trace_events(recs):
 def validate_traces(ctx, recs, per_shard=800):
     """Code -> spec: the recorded request sequences are replayed against the Model's actions.  A rejected trace
     is a DIVERGENCE of the binding (probe order is not part of C19), never a violation."""
+    # identical runs (same directory, rendering and abstract query, same requests, same outcome - the repeated
+    # calls of a history and the sub-second renderings of one query) give identical event sequences: each distinct
+    # one is validated once
+    seen, uniq = set(), []
+    for r in recs:
+        c = {k: v for k, v in r["case"].items() if k not in ("sid", "k", "op")}
+        g = r["got"]
+        key = json.dumps([c, [(q["path"], q["status"]) for q in g["reqs"]], g["outcome"], g["seq"]], sort_keys=True)
+        if key not in seen:
+            seen.add(key)
+            uniq.append(r)
+    ctx.extra["trace_runs_covered"] = len(recs)
+    recs = uniq
     shards = [recs[i:i + per_shard] for i in range(0, len(recs), per_shard)]
 
     def one(k):
@@ -213,7 +226,7 @@ def run(ctx):
             vlib.log("C19: judged in %.0fs" % (t3 - t2))
             validate_traces(ctx, recs)
             t4 = time.time()
-            vlib.log("C19: %d traces validated in %.0fs" % (ctx.traces, t4 - t3))
+            vlib.log("C19: %d distinct traces (of %d runs) validated in %.0fs" % (ctx.traces, len(recs), t4 - t3))
             ctx.extra["phases_s"] = {"gen": round(t1 - t0, 1), "run": round(t2 - t1, 1), "judge": round(t3 - t2, 1),
                                      "trace": round(t4 - t3, 1)}
             ctx.extra["directories"] = len(dirs)
